@@ -92,6 +92,15 @@ SPECIALS = [
      [S(["interface X"], [S(["description a"]), S(["mtu 9000"])]), S(["interface Y"], [S(["description b"])])],
      [S(["interface X"], [S(["description a", "description c"]), S(["mtu 9000", "mtu 1500"])])],
      "interface * %logic=common.permanent\n    description\n    mtu\n"),
+    # the explicit negated form of a protected row WITHOUT any catch-all rule beside it: the ACL refuses it as generator output
+    ("interface *\n    description %cant_delete=1\n    mtu\n",
+     [S(["interface X"], [S(["description a"]), S(["mtu 9000"])])],
+     [S(["interface X"], [S(["undo description", "description b"]), S(["mtu 9000", "mtu 1500"])])],
+     "interface *\n    description\n    mtu\n    ~\n"),
+    # a more specific %global rule governs the block: the children rules of the less specific local rule do not apply below it
+    ("interface *\n    mtu\n    description\ninterface */X\\d*/ %global\n",
+     [S(["interface X"], [S(["mtu 9000"]), S(["description a"])]), S(["interface Y1"], [S(["mtu 9000"])])],
+     [S(["interface X"], [S(["mtu 9000", "mtu 1500"]), S(["description a", "description b"])]), S(["interface Y1"], [S(["mtu 9000", "mtu 1500"])])]),
     # two differently written rules of equal rank match the protected row: the one written first governs it
     ("interface *\n    description %cant_delete=1\ninterface *\n    description *\n    mtu\n",
      [S(["interface X"], [S(["description a"]), S(["mtu 9000"])])],
